@@ -101,6 +101,14 @@ func buildErr(recipe string) (err error, chainClass string, embeddedJSON string)
 		case "E":
 			embeddedJSON = uhs(f[1])
 			err = gerrors.EmbedObject(json.RawMessage(embeddedJSON), err)
+		case "ES":
+			// the embedded object is a Go STRING (not raw JSON): f[1] is its canonical JSON text
+			embeddedJSON = uhs(f[1])
+			var str string
+			if json.Unmarshal([]byte(embeddedJSON), &str) != nil {
+				return nil, "", ""
+			}
+			err = gerrors.EmbedObject(str, err)
 		case "W2":
 			// fmt.Errorf with TWO %w verbs: the chain so far on one side, a plain error on the other
 			esc := func(x string) string { return strings.ReplaceAll(uhs(x), "%", "%%") }
@@ -334,6 +342,30 @@ func runErrs(ctx *Ctx) {
 			do("markers %s", recipe)
 			do("is %s %s", recipe, cls)
 			do("is %s %s", recipe, names[(i+1)%len(names)])
+		}
+	}
+	// embedded objects that are Go strings with everything a quoting routine may trip over (control bytes, DEL,
+	// quotes, backslashes, non-BMP runes): what lies between the markers must stay JSON
+	ctx.R.Case("string-objects")
+	strs := []string{"plain", "with \"quotes\" and \\ backslash", "tab\tnewline\n", "esc \x1b[31m red", "nul \x00 byte", "bell \a vt \v", "del \x7f", "emoji \U0001F600 and \U000E0001", "<html>&amp;", "\u2028 line sep"}
+	for i, cls := range names {
+		for j, str := range strs {
+			js, _ := json.Marshal(str)
+			for depth := 0; depth <= 2; depth++ {
+				recipe := "C." + cls + ";ES." + hs(string(js))
+				for d := 0; d < depth; d++ {
+					recipe += ";W." + hs(texts[(i+j+d)%4]) + ".-"
+				}
+				if probe, _, _ := buildErrSafe(recipe); probe == nil || strings.Count(probe.Error(), gerrors.VerifMarker()) != 2 {
+					ctx.R.Branch("skipped: texts would form the marker")
+					continue
+				}
+				ctx.R.Nontrivial("embedded object")
+				do("ext %s", recipe)
+				do("extraw %s", recipe)
+				do("code %s", recipe)
+				do("is %s %s", recipe, cls)
+			}
 		}
 	}
 	// trees and OS errors: two-%w wrappers and errors.Join with a plain error on the other side, at every depth;
